@@ -361,6 +361,12 @@ def verify(ctx, contract: Contract, timeout_s=None):
         res.unsupported = str(e)
         ctx.undecide(f"{fn.qualname}", f"UNSUPPORTED: {e}")
         return res
+    except (KeyError, IndexError) as e:
+        # a clause names a local variable / event the function no longer has (e.g. after a harmless renaming): the contract
+        # has to be brought up to date; that is undecided, neither a violation nor a crash
+        res.unsupported = f"contract out of date: {type(e).__name__} {e}"
+        ctx.undecide(f"{fn.qualname}", f"UNSUPPORTED: a contract clause refers to {e!s}, which the function no longer has (contract out of date)")
+        return res
     for t in sorted(E.used_trusted) + list(contract.trusted):
         ctx.trust(t)
     for ob in E.obligations:
